@@ -64,7 +64,12 @@ def run(ctx):
 
     # ---- R06.2
     sols = [util.table_locals(five)[1]]
-    ctx.require(sols[0] is not None, 'candidate array (element-wise rewritten [[f64;6];8]) in the 5-DOF solver')
+    by_tail = None
+    if sols[0] is None:
+        # the candidates are not kept in an element-wise rewritten array: slot 6 of everything the solver returns, by symbolic
+        # interpretation over all scenarios (finite / not finite, turns high / low, gate passed / failed)
+        by_tail = opw.tail_verdict(ctx, five, True, ('slot5',))
+    ctx.require(sols[0] is not None or by_tail is not None, 'candidate array (element-wise rewritten [[f64;6];8]) in the 5-DOF solver')
     writes5 = []
     other_ranges = []
     for i, j, st in five.stmts():
@@ -100,8 +105,10 @@ def run(ctx):
         src = util.loop_source(row) if row is not None else None
         r = util.range_of(src) if src is not None else None
         ok = r is not None and util.const_val(r[0]) == 0
+    if by_tail is not None:
+        ok = by_tail[0]
     ctx.check(ok, 'R06.2', 'slot5', five.where(slot5[0][1], slot5[0][2]) if slot5 else five.where(0), five.path,
-              'J6 of every 5-DOF candidate must be the caller\'s value, written once per row and never touched by the angle loops',
+              'J6 of every 5-DOF candidate must be the caller\'s value, written once per row and never touched by the angle loops' + (': ' + by_tail[1] if by_tail else ''),
               found='slot-5 writes: %s; loop ranges of other writes: %s' % ([show(w[3], maxdepth=3) for w in slot5], other_ranges),
               detail='sols[si][5] = j6; other loops %s' % other_ranges)
     # call sites of the 5-DOF solver
